@@ -124,6 +124,40 @@ func C11_Offsets() {
 		rt.Cover("position in an empty file")
 	}
 	rt.ObsStr("file", fp.file.name)
+	// a second lookup on the same file set: the answer must not depend on
+	// what was looked up before
+	// p2: free when there are at most two files; with more files one of the
+	// positions around the first lookup (the solver needs them related to p)
+	var p2 int
+	if k <= 2 {
+		p2 = rt.Int("p2")
+	} else {
+		switch rt.Choose("p2kind", 4) {
+		case 0:
+			p2 = p + 1
+		case 1:
+			p2 = p - 1
+		case 2:
+			p2 = fp.file.offset + fp.file.length + 1 // first position of the next file
+		case 3:
+			p2 = fp.file.offset - 1 // end-of-file position of the previous file
+		}
+	}
+	rt.Assume(p2 >= 1 && p2 < end)
+	for _, f := range files {
+		f.asked = nil
+	}
+	res2 := fs2.Position(parsley.Pos(p2))
+	fp2, ok2 := res2.(fakePosition)
+	if !ok2 {
+		rt.Fail("second-lookup/not-a-file-position", "an in-range position was reported as unknown after an earlier lookup")
+		return
+	}
+	rt.Assert(p2 >= fp2.file.offset && p2 <= fp2.file.offset+fp2.file.length, "second-lookup/file")
+	rt.Assert(fp2.off == p2-fp2.file.offset, "second-lookup/offset")
+	if fp2.file != fp.file {
+		rt.Cover("second lookup in another file")
+	}
 }
 
 // lineCol is the reference: 1-based line and byte column of offset q in the
